@@ -2021,3 +2021,50 @@ def h_e_bip_handwritten(fi: int, l: int, r: int, bits: int, order: int, flips: i
     if ll == 3:
         b = b * 5 % 64          # a spread of edge sets on the 3x2 sides
     return untraced(_bip_handwritten, pick(fi, 0, 1), ll, rr, b % (1 << (ll * rr)), pick(order, 0, 2), pick(flips, 0, 3))
+
+
+# ------------------------------------------------- two reads in one process: a rejected text must leave nothing behind
+GOOD = {'matrix': ['1 1\n1\n', '2 2\n1 0\n0 1\n', '2 3\n0 0 1\n1 0 1', '0 0\n'],
+        'kthlist': ['3\n1 : 0\n2 : 1 0\n3 : 1 2 0\n', '2\n1 : 0\n2 : 1 0', '0\n'],
+        'dimacs': ['p edge 3 2\ne 1 2\ne 2 3\n', 'p edge 3 0\n', 'p edge 2 1\ne 1 2']}
+
+
+def _two_reads(fi, a, b, c, tn, gi):
+    """read a text made of three menu lines (valid or not), then a valid text of the same format: the second read must
+    return exactly its graph - the reader keeps nothing between calls"""
+    fmt = ['matrix', 'kthlist', 'dimacs'][fi]
+    menu = {'matrix': MAT_MENU, 'kthlist': KTH_MENU, 'dimacs': DIM_MENU}[fmt]
+    typ = 'bipartite' if fmt == 'matrix' else ['simple', 'digraph', 'dag'][gi % 3]
+    if not _read_menu(fmt, typ, menu, [a % len(menu), b % len(menu), c % len(menu)], tn):
+        return False
+    good = GOOD[fmt][gi % len(GOOD[fmt])]
+    want = ref_matrix(good) if fmt == 'matrix' else (ref_kthlist(good, typ) if fmt == 'kthlist' else ref_dimacs(good, typ))
+    try:
+        G = readGraph(io.StringIO(good), typ, fmt)
+    except ValueError:
+        return False
+    return _views(G, typ) == want
+
+
+def h_e_two_reads_mat(a: int, b: int, c: int, tn: bool, gi: int) -> bool:
+    """
+    pre: 2 <= a <= 11 and 0 <= b <= 14 and 0 <= c <= 14 and 0 <= gi <= 3
+    post: _
+    """
+    return untraced(_two_reads, 0, pick(a, 2, 11), pick(b, 0, 14), pick(c, 0, 14), pickb(tn), pick(gi, 0, 3))
+
+
+def h_e_two_reads_kth(a: int, b: int, c: int, tn: bool, gi: int) -> bool:
+    """
+    pre: 2 <= a <= 4 and 0 <= b <= 19 and 0 <= c <= 19 and 0 <= gi <= 2
+    post: _
+    """
+    return untraced(_two_reads, 1, pick(a, 2, 4), pick(b, 0, 19), pick(c, 0, 19), pickb(tn), pick(gi, 0, 2))
+
+
+def h_e_two_reads_dim(a: int, b: int, c: int, tn: bool, gi: int) -> bool:
+    """
+    pre: 2 <= a <= 4 and 0 <= b <= 17 and 0 <= c <= 17 and 0 <= gi <= 2
+    post: _
+    """
+    return untraced(_two_reads, 2, pick(a, 2, 4), pick(b, 0, 17), pick(c, 0, 17), pickb(tn), pick(gi, 0, 2))
